@@ -547,6 +547,43 @@ impl World {
                 "server-udp-junk" => {
                     let Ok(u) = UdpSocket::bind("127.0.0.1:0").await else { return "no-loopback".to_owned() };
                     let _ = u.send_to(&junk, ("127.0.0.1", sp)).await;
+                    // and every short length (below, at and above tag / salt / fixed-header sizes)
+                    for l in 0..=72usize {
+                        let d: Vec<u8> = (0..l).map(|i| junk.get(i % junk.len().max(1)).copied().unwrap_or(0x5a) ^ l as u8).collect();
+                        let _ = u.send_to(&d, ("127.0.0.1", sp)).await;
+                    }
+                    tokio::time::sleep(Duration::from_millis(30)).await;
+                    "done".to_owned()
+                }
+                // an established local association whose next datagram cannot be sent on (larger than a datagram can be
+                // once the protocol's own bytes are added), and a target whose answer cannot be relayed back for the same
+                // reason: that datagram is lost, nothing else
+                "local-udp-oversized" | "server-udp-oversized-reply" => {
+                    let Ok(target) = UdpSocket::bind("127.0.0.1:0").await else { return "no-loopback".to_owned() };
+                    let taddr = target.local_addr().unwrap();
+                    let big_reply = kind == "server-udp-oversized-reply";
+                    tokio::spawn(async move {
+                        let mut buf = vec![0u8; 70000];
+                        for i in 0..3 {
+                            let Ok(Ok((l, from))) = tokio::time::timeout(Duration::from_secs(2), target.recv_from(&mut buf)).await else { break };
+                            let answer = if big_reply && i == 1 { vec![0x42u8; 65500] } else { buf[..l].to_vec() };
+                            let _ = target.send_to(&answer, from).await;
+                        }
+                    });
+                    let Ok(app) = UdpSocket::bind("127.0.0.1:0").await else { return "no-loopback".to_owned() };
+                    let mut head = vec![0u8, 0, 0, 1, 127, 0, 0, 1];
+                    head.extend_from_slice(&taddr.port().to_be_bytes());
+                    let mut buf = vec![0u8; 70000];
+                    for i in 0..3 {
+                        let mut d = head.clone();
+                        if !big_reply && i == 1 {
+                            d.resize(65507, 0x41);
+                        } else {
+                            d.extend_from_slice(b"ping");
+                        }
+                        let _ = app.send_to(&d, ("127.0.0.1", cp)).await;
+                        let _ = tokio::time::timeout(Duration::from_millis(if i == 1 { 300 } else { 1500 }), app.recv_from(&mut buf)).await;
+                    }
                     "done".to_owned()
                 }
                 // towards the client's local ports
@@ -609,6 +646,11 @@ impl World {
                 "local-udp-junk" => {
                     let Ok(u) = UdpSocket::bind("127.0.0.1:0").await else { return "no-loopback".to_owned() };
                     let _ = u.send_to(&junk, ("127.0.0.1", cp)).await;
+                    for l in 0..=40usize {
+                        let d: Vec<u8> = (0..l).map(|i| junk.get(i % junk.len().max(1)).copied().unwrap_or(0x5a) ^ l as u8).collect();
+                        let _ = u.send_to(&d, ("127.0.0.1", cp)).await;
+                    }
+                    tokio::time::sleep(Duration::from_millis(30)).await;
                     "done".to_owned()
                 }
                 _ => "unknown-fault".to_owned(),
